@@ -232,9 +232,8 @@ def extract_case(ops_path, case_id, upto_line):
                     hdr = " ".join(w[2:]).split(" | ")[0]
                 continue
             if inside:
-                if line.startswith("#") or not line.strip() or line.startswith("mon "):
-                    continue
-                ops.append(line.rstrip("\n").split(" | ")[0])
+                if not (line.startswith("#") or not line.strip() or line.startswith("mon ")):
+                    ops.append(line.rstrip("\n").split(" | ")[0])
                 if no >= upto_line:
                     break
     return hdr, ops
@@ -359,13 +358,33 @@ class Run:
         return 0
 
 
-def stage_lean(run, cfg):
-    """build the property's Lean modules + driver, audit axioms.  A failure here that is caused by
-    regenerated definitions is reported by the caller's `on_lean_failure`; otherwise machinery broken."""
-    with Lock("lean"):
-        rc, out = lean_build(cfg["lean"] + ["driver"])
+def run_extractor(run):
+    """tie X: regenerate Generated/*.lean + facts.json from /repo's current sources"""
+    with Lock("go"):
+        rc, out = sh(["go", "build", "-o", os.path.join(WORK, "bin", "extract"), "./cmd/extract"], cwd=HARNESS, env=GOENV, timeout=600)
         if rc != 0:
-            return False, out
+            raise Broken("cannot build the extractor: " + out[-1500:])
+    with Lock("lean"):
+        rc, out = sh([os.path.join(WORK, "bin", "extract"), "-repo", REPO, "-out", os.path.join(LEAN, "GolibsVerif", "Generated"),
+                      "-facts", os.path.join(WORK, "facts.json")], timeout=300)
+    facts = {}
+    try:
+        facts = json.load(open(os.path.join(WORK, "facts.json")))
+    except Exception:
+        pass
+    return rc, out, facts
+
+
+def stage_lean(run, cfg):
+    """build the driver and the property's Lean modules, audit axioms.
+    Returns (ok, output).  ok=False only when the property's proofs no longer check."""
+    with Lock("lean"):
+        rc, out = lean_build(["driver"])
+        if rc != 0:
+            return "driver", out
+        rc, out = lean_build(cfg["lean"])
+        if rc != 0:
+            return "proofs", out
         mods = lean_files_of(cfg["lean"])
         run.lean = lean_audit(run.pid, cfg["lean"], mods)
         if run.tier == "thorough":
@@ -375,7 +394,7 @@ def stage_lean(run, cfg):
                 run.lean["problems"].append("leanchecker rejected the compiled modules")
     if run.lean["problems"]:
         raise Broken("Lean audit: " + "; ".join(run.lean["problems"]))
-    return True, ""
+    return "ok", ""
 
 
 def stage_go(cmds=("seq",)):
@@ -448,6 +467,26 @@ def stage_seq(run, cfg, sq):
                                broken="S-correspondence " + comp + " (internal view)", args=list(sq.get("args", ()))), False)
 
 
+def _first_error(out):
+    for line in out.split("\n"):
+        m = re.match(r"error: (GolibsVerif/\S+\.lean:\d+:\d+): (.*)", line)
+        if m:
+            # name the theorem: look upward in the file for the closest theorem/def
+            path, ln = m.group(1).split(":")[0], int(m.group(1).split(":")[1])
+            name = "?"
+            try:
+                lines = open(os.path.join(LEAN, path)).read().split("\n")
+                for i in range(ln - 1, -1, -1):
+                    mm = re.match(r"\s*(?:theorem|lemma|def|example)\s*([^\s:({]*)", lines[i])
+                    if mm:
+                        name = mm.group(1) or "example"
+                        break
+            except Exception:
+                pass
+            return f"{path}:{ln} ({name}): {m.group(2)[:200]}"
+    return out.strip().split("\n")[-1][:300]
+
+
 def run_property(pid, tier):
     from . import props
     if pid not in props.PROPS:
@@ -459,11 +498,28 @@ def run_property(pid, tier):
     try:
         if "pre" in cfg:
             cfg["pre"](run, cfg)
-        ok, out = stage_lean(run, cfg)
-        if not ok:
-            handler = cfg.get("on_lean_failure")
-            if handler is None or not handler(run, cfg, out):
+        extractor_broken = None
+        if cfg.get("generated"):
+            rc, xout, facts = run_extractor(run)
+            run.facts = facts.get("facts", {})
+            if rc != 0:
+                extractor_broken = "extractor cannot translate the current source: " + xout.strip()[-400:]
+        st, out = stage_lean(run, cfg)
+        proof_broken = None
+        if st == "driver":
+            if not cfg.get("generated"):
+                raise Broken("lake build driver failed:\n" + out[-3000:])
+            # the executable model itself no longer compiles against the regenerated definitions
+            run.violation("model driver no longer builds against the regenerated definitions: " + _first_error(out),
+                          dict(kind="proof", broken="lake build driver (Generated/*.lean)", output=out[-3000:]), False)
+            return run.finish(level=cfg.get("level", "proof"))
+        if st == "proofs":
+            if not cfg.get("generated"):
                 raise Broken("lake build failed:\n" + out[-3000:])
+            proof_broken = _first_error(out)
+            mods = lean_files_of(cfg["lean"])
+            n = sum(len(theorem_names(m)) for m in mods if ".Props." in m or ".Lemmas." in m)
+            run.lean = dict(obligations=n, discharged=0, axioms=[], property_theorems=[], problems=[proof_broken])
         rc, out = stage_go(cfg.get("go_cmds", ("seq",)))
         if rc != 0:
             rc2, out2 = sh(["go", "build", "./..."], cwd=REPO, env=GOENV, timeout=900)
@@ -480,6 +536,13 @@ def run_property(pid, tier):
             stage_seq(run, cfg, sq)
         for extra in cfg.get("stages", []):
             extra(run, cfg)
+        if (proof_broken or extractor_broken) and not run.violations and not run.known_hits:
+            # the search (correspondence + monitors on the real code) found no concrete failing input
+            what = proof_broken or extractor_broken
+            run.violation("proof obligation no longer checks against the regenerated definitions: " + what,
+                          dict(kind="proof", broken=what, output=out[-3000:]), False)
+        elif proof_broken or extractor_broken:
+            log("# proof tie broken as well: " + (proof_broken or extractor_broken))
         return run.finish(level=cfg.get("level", "proof"))
     except Broken as e:
         log("CHECK-BROKEN: " + str(e))
